@@ -40,6 +40,14 @@ def response(k: int) -> bytes:
     return b"HTTP/1.1 200 OK\r\nContent-Type: application/hap+json\r\nContent-Length: %d\r\n\r\n" % len(body) + body
 
 
+def chunked_response(k: int) -> bytes:
+    """the same response in chunked transfer coding (two chunks and the zero-size last chunk)"""
+    body = b'{"k":%d}' % k
+    a, b = body[:3], body[3:]
+    return (b"HTTP/1.1 200 OK\r\nContent-Type: application/hap+json\r\nTransfer-Encoding: chunked\r\n\r\n"
+            + b"%x\r\n" % len(a) + a + b"\r\n" + b"%x\r\n" % len(b) + b + b"\r\n" + b"0\r\n\r\n")
+
+
 async def settle(loop):
     for _ in range(12):
         await asyncio.sleep(0)
@@ -79,6 +87,15 @@ async def micro_scenario(loop, events):
             if not (t.closed or t.closing):   # a closing transport delivers nothing more (asyncio contract)
                 t.feed(response(nresp))
                 nresp += 1
+        elif k[0] == "c":
+            # the same complete response, chunked, arriving in two reads cut <n> bytes before its end (no loop run in between)
+            if not (t.closed or t.closing):
+                data = chunked_response(nresp)
+                cutp = max(len(data) - int(k[1]), 1)
+                t.feed(data[:cutp])
+                if not (t.closed or t.closing) and data[cutp:]:
+                    t.feed(data[cutp:])
+                nresp += 1
         elif k[0] == "g":
             rid = int(k[1])
             if rid in tasks and not tasks[rid].done():
@@ -105,6 +122,26 @@ async def micro_scenario(loop, events):
                 problems.append(("micro/completed-after-giving-up", f"request {rid} was cancelled before its task ran, yet it completed with response #{kk}"))
         out.append(f"{rid}={o}")
     up = 0 if (t.closing or t.closed) else 1
+    # ---- oracle: in a history in which nobody gave up and the accessory never said more than it was asked, the connection is
+    # healthy: every request whose response was delivered completes with it, nothing raises, the transport stays open
+    toks = [e.split(":")[0] for e in events]
+    healthy = "g" not in toks
+    nw = nd = 0
+    for x in toks:
+        nw += x == "w"
+        nd += x in ("d", "c")
+        if nd > nw:
+            healthy = False
+    if healthy:
+        if net.errors:
+            problems.append(("micro/callback-raised", f"data_received raised {net.errors[0]} on a healthy connection (no caller gave up, no unsolicited response)"))
+        done_ok = {int(o.split("=")[0]) for o in out if "=ok:" in o}
+        for pos, rid in enumerate(written):
+            if pos < nd and rid not in done_ok:
+                problems.append(("micro/response-not-delivered", f"request {rid} (position {pos}) did not complete with its response although the accessory sent it on a healthy connection"))
+                break
+        if not up:
+            problems.append(("micro/healthy-connection-torn-down", "the transport was closed although no caller gave up and the accessory sent exactly the responses it was asked for"))
     for rid, tk in tasks.items():
         if not tk.done():
             problems.append(("micro/hung", f"request {rid} neither completed nor failed although the loop ran to quiescence with the transport {'closed' if t.closed else 'open'} and no response outstanding for it" if t.closed else ""))
@@ -125,7 +162,7 @@ def gen(rng, n):
             evs.append(f"w:{nid}")
             live.append(nid)
         elif r < 0.6:
-            evs.append("d")
+            evs.append("d" if rng.random() < 0.6 else "c:%d" % rng.randrange(0, 8))
         elif r < 0.85:
             evs.append(f"g:{rng.choice(live)}")
         else:
@@ -159,6 +196,10 @@ def run_micro(ctx: Ctx, driver: Driver):
     hist = directed()
     if not ctx.thorough():
         hist = [h for i, h in enumerate(hist) if len(h) <= 4 or i % 5 == ctx.seed % 5]
+    # complete chunked responses cut at every position of their last seven bytes, alone and with another request behind them
+    for n in range(0, 8):
+        hist += [["w:1", f"c:{n}"], ["w:1", "w:2", f"c:{n}", "t", "d"], ["w:1", "w:2", f"c:{n}", "d"], ["w:1", f"c:{n}", "t", "w:2", f"c:{(n + 3) % 8}"],
+                 ["w:1", "w:2", "w:3", f"c:{n}", f"c:{7 - n}", "d"]]
     hist += [gen(rng, rng.randrange(4, 14)) for _ in range(ctx.budget(400, 8000))]
     try:
         for evs in hist:
@@ -177,7 +218,7 @@ def run_micro(ctx: Ctx, driver: Driver):
                 ctx.violation("plain/" + sig, what + f" [history: {' '.join(evs)}]", case)
             cases.append(case)
             outs.append(out)
-            lines.append("rq.micro " + " ".join(evs))
+            lines.append("rq.micro " + " ".join("d" if x.startswith("c:") else x for x in evs))
     finally:
         asyncio.set_event_loop(None)
         loop.close()
@@ -222,5 +263,5 @@ def replay_micro(ctx: Ctx, driver: Driver, case):
     finally:
         asyncio.set_event_loop(None)
         loop.close()
-    compare_with_model(ctx, "micro", [case], [out], ["rq.micro " + " ".join(case["events"])], driver, canon=lambda s: " ".join(sorted(s.split(" ")[0].split(","))) + " " + s.split(" ")[-1])
+    compare_with_model(ctx, "micro", [case], [out], ["rq.micro " + " ".join("d" if x.startswith("c:") else x for x in case["events"])], driver, canon=lambda s: " ".join(sorted(s.split(" ")[0].split(","))) + " " + s.split(" ")[-1])
     return "; ".join(f"{s}: {w}" for s, w in problems) or None
